@@ -1,6 +1,17 @@
 PROP = {
  "id": "C13",
- "functions": [],
+ "functions": [
+  "saml2_tophat.request:Request._loads[AssertionIDRequest]",
+  "saml2_tophat.request:Request._loads[AttributeQuery]",
+  "saml2_tophat.request:Request._loads[AuthnQuery]",
+  "saml2_tophat.request:Request._loads[AuthnRequest]",
+  "saml2_tophat.request:Request._loads[AuthzDecisionQuery]",
+  "saml2_tophat.request:Request._loads[LogoutRequest]",
+  "saml2_tophat.request:Request._loads[ManageNameIDRequest]",
+  "saml2_tophat.request:Request._loads[NameIDMappingRequest]",
+  "saml2_tophat.response:StatusResponse._loads",
+  "saml2_tophat.response:StatusResponse._postamble"
+ ],
  "function_generator": [
   "contracts.c_validate_classes",
   "functions_for_tier"
